@@ -1671,7 +1671,8 @@ class ModelHist(Engine):
             timing = ["gstart", ro.randint(1, 3)]
         return {"engine": self.name, "mode": "perm", "world": world, "container": container, "params": params,
                 "timing": timing, "multiset": multiset, "perm_seed": ro.randint(0, 10**6), "n_perms": ro.randint(1, 5),
-                "clone_after": ro.randrange(max(1, len(multiset))) if ro.random() < 0.3 else None, "ops": later}
+                "clone_after": ro.randrange(max(1, len(multiset))) if ro.random() < 0.3 else None,
+                "fork": ro.random() < 0.3, "ops": later}
 
     def fresh_container(self, W, script, tag):
         c = script["container"]
@@ -1788,9 +1789,33 @@ class ModelHist(Engine):
             shadow = shadow.clone()
         rejected_before = any(o != "ok" for o in verdicts[0][2]) if verdicts else False
         judged_after_reject = 0
+        second = shadow2 = None
+        if script.get("fork"):
+            # the container is CLONED and both go on receiving insertions alternately: what is inserted into one must
+            # not decide what the other accepts (each is compared with a container of its own, built from scratch)
+            try:
+                second = first.clone()
+                shadow2 = self.fresh_container(W, script, "_shadow2")
+                for ins in first_accepted:
+                    self.insert(W, shadow2, ins, timing)
+                ctx.probe("forked-into-original-and-clone")
+            except BuildError:
+                second = shadow2 = None
         for i, ins in enumerate(script["ops"]):
             ctx.op_index = i + 1
             ctx.ops += 1
+            if second is not None and i % 2 == 1:
+                try:
+                    ob1 = self.insert(W, second, ins, timing)
+                    ob2 = self.insert(W, shadow2, ins, timing)
+                except BuildError:
+                    continue
+                ctx.ev(i, ins["ins"], "clone", ob1, ob2)
+                ctx.check("C24.order-independent", ob1 == ob2,
+                          f"insertion {i} {json.dumps(ins)[:300]} into the CLONE of the container -> {ob1}; into a container "
+                          f"built from scratch with the same accepted insertions -> {ob2} (the original received other "
+                          f"insertions in between)", cls="clone-interferes")
+                continue
             try:
                 o1 = self.insert(W, first, ins, timing)
                 o2 = self.insert(W, shadow, ins, timing)
